@@ -2080,3 +2080,22 @@ package asm
 //@   requires forall(k string, mapdom(gen.old.typeDefs, k) ==> mapdom(gen.new.typeDefs, k) && gen.new.typeDefs[k] != nil, pattern(mapdom(gen.old.typeDefs, k)))
 //@   assigns heap(types.IntType.BitSize), heap(types.FloatType.Kind), heap(types.PointerType.ElemType), heap(types.PointerType.AddrSpace), heap(types.VectorType.Scalable), heap(types.VectorType.Len), heap(types.VectorType.ElemType), heap(types.ArrayType.Len), heap(types.ArrayType.ElemType), heap(types.StructType.Packed), heap(types.StructType.Fields), heap(types.StructType.Opaque), heap(types.FuncType.RetType), heap(types.FuncType.Params), heap(types.FuncType.Variadic)
 //@   loop 0: invariant true
+//@ # ---------------------------------------------------------------- C11 (character-array contents, decoder side) ---
+//@ # A character-array literal whose string token is some bytes quoted decodes to a constant holding exactly those bytes.
+//@ func (*generator).irCharArrayConst
+//@   props C11
+//@   requires gen != nil && old != nil && t != nil
+//@   assigns caches
+//@   behaviour inverse(ghost orig string, ghost v bytepred):
+//@     requires enc.isQuoted(old.Val().Text(), orig, v) && enc.quotedLike(v)
+//@     instantiate Unquote.inverse(orig, v)
+//@     ensures result1 == nil ==> result0 != nil && len(result0.X) == len(orig) && forall(k, 0, len(orig), result0.X[k] == orig[k])
+//@ # stringLit (section, partition, gc, inline asm, module asm, attribute strings, metadata strings, ...): a string token
+//@ # that is some bytes quoted (what ir.quote / enc.Quote print) decodes to exactly those bytes
+//@ func stringLit
+//@   props C11
+//@   pure
+//@   behaviour inverse(ghost n string):
+//@     requires enc.isQuotedEsc(old.Text(), n)
+//@     instantiate unquote.inverse(n)
+//@     ensures result == n
